@@ -400,6 +400,38 @@ func init() {
 		}
 		return in.mkBoolT(in.eqBytes(bvs(x.A), in.m.rndDraws[k]))
 	})
+	reg("DrawIndexOf", func(in *Interp, fr *frame, a []Value) Value {
+		// index of the random draw whose bytes are syntactically these bytes, or -1
+		x := bvs(a[0].(Slice).A)
+		for k, d := range in.m.rndDraws {
+			if len(d) != len(x) || len(x) == 0 {
+				continue
+			}
+			same := true
+			for i := range d {
+				if x[i].T == nil || x[i].T != d[i].T {
+					same = false
+					break
+				}
+			}
+			if same {
+				return mkBV(64, uint64(k))
+			}
+		}
+		return mkBV(64, ^uint64(0))
+	})
+	reg("SameTerms", func(in *Interp, fr *frame, a []Value) Value {
+		x, y := bvs(a[0].(Slice).A), bvs(a[1].(Slice).A)
+		if len(x) != len(y) {
+			return Bool{C: false}
+		}
+		for i := range x {
+			if x[i].T != y[i].T || (x[i].T == nil && x[i].C != y[i].C) {
+				return Bool{C: false}
+			}
+		}
+		return Bool{C: true}
+	})
 	reg("DrawLen", func(in *Interp, fr *frame, a []Value) Value {
 		k := int(in.concInt(a[0], "draw index"))
 		return mkBV(64, uint64(len(in.m.rndDraws[k])))
